@@ -382,7 +382,10 @@ def run_cases(exe, cases, workdir, tag, env=None, shards=NCPU, per_case_timeout=
     if slow and not (env or {}).get("VH_WATCHDOG"):
         e2 = dict(e)
         e2["VH_WATCHDOG"] = str(int(per_case_timeout * 4))
+        confirmed = 0
         for i in slow:
+            if confirmed >= 2:
+                break       # two hangs repeated when run alone: the rest are believed without waiting for each of them
             cp = os.path.join(workdir, "%s.confirm.%d.ndjson" % (tag, i))
             op = os.path.join(workdir, "%s.confirm_obs.%d.ndjson" % (tag, i))
             with open(cp, "w") as f:
@@ -392,6 +395,8 @@ def run_cases(exe, cases, workdir, tag, env=None, shards=NCPU, per_case_timeout=
                 o2 = json.loads(open(op).readline())
                 if o2.get("outcome") != "timeout":
                     log("case %d timed out under load but finished when run alone: not a hang" % i)
+                else:
+                    confirmed += 1
                 obs[i] = o2
             except Exception:
                 pass
